@@ -576,8 +576,8 @@ def Doc.marshalable (d : Doc) : Bool :=
 def contentType : String := "application/vnd.api+json"
 def jsonApiVersion : String := "1.1"
 
-def serveHTTP (s : Schema) (r : Req) : Written :=
-  let resp := executeRequest s r
+/-- handler.go:17-56: everything `ServeHTTP` does with the router's answer. -/
+def serveResponse (resp : Response) : Written :=
   let doc : Doc := { resp.doc with jsonapi := some jsonApiVersion }
   let status := if resp.status != 0 then resp.status else 200
   let status := if doc.errors.length > 0 then statusOfErrors doc.errors else status
@@ -587,5 +587,7 @@ def serveHTTP (s : Schema) (r : Req) : Written :=
   else
     -- fixed fallback (patch 01): a document with the 500 error and the jsonapi member
     .wrote 500 contentType [] { errors := [errorForHTTPStatus 500], jsonapi := doc.jsonapi }
+
+def serveHTTP (s : Schema) (r : Req) : Written := serveResponse (executeRequest s r)
 
 end ApiFu.C19
